@@ -107,6 +107,16 @@ def structural(rng, viol, evals):
         got = run_once(A.Compose([Rec(ident=50, p=1.0, always_apply=True)] + node, p=0.0), seed)
         if got != [50] + [i for i in range(k) if alw[i]]:
             bad('Compose:skipped-nested', case, got, [50] + [i for i in range(k) if alw[i]])
+        # the selection weights are the children's own p / sum(p), whatever their always_apply flags
+        wp = [rng.choice([0.1, 0.25, 0.5, 1.0]) for _ in range(max(2, k))]
+        wa = [rng.random() < 0.4 for _ in wp]
+        case = {'op': 'OneOf-weights', 'ps': wp, 'always': wa, 'seed': seed}
+        for opn in ('OneOf', 'SomeOf'):
+            node = A.OneOf(leaves(wp, wa), p=1.0) if opn == 'OneOf' else A.SomeOf(leaves(wp, wa), n=1, p=1.0)
+            got_w = [float(x) for x in node.transforms_ps]
+            exp_w = [x / sum(wp) for x in wp]
+            if any(abs(g - e) > 1e-12 for g, e in zip(got_w, exp_w)):
+                bad('%s:weights' % opn, case, got_w, exp_w)
         # forced application through a nested operator: OneOf -> OneOf -> leaf with p tiny but > 0
         case = {'op': 'OneOf(OneOf)', 'seed': seed}
         got = run_once(A.Compose([A.OneOf([A.OneOf([Rec(ident=7, p=1e-9)], p=1e-9)], p=1.0)]), seed)
